@@ -36,7 +36,7 @@ class LifecycleRun:
     seconds the client handler sleeps in that delivery (first occurrence after arm time)"""
 
     def __init__(self, rng, script, susp=None, rank="stable", horizon=400.0, spa_identifier="SPA01:02:03:04:05:06",
-                 snapshot=None, has_id=True):
+                 snapshot=None, has_id=True, spa_address=None):
         self.rng = rng
         self.ident = spa_identifier
         self.has_id = has_id
@@ -50,6 +50,8 @@ class LifecycleRun:
         self.exited = False
         self.unknown = []
         kw = {"snapshot": snapshot} if snapshot else {}
+        if spa_address is not None:
+            kw["spa_address"] = spa_address
         self.s = AsyncSession(rank=rank, rank_seed=rng.random(), on_event=self._on_event, autostart=False,
                               spa_identifier=spa_identifier, **kw)
 
@@ -120,10 +122,11 @@ class LifecycleRun:
                 if t > loop.time():
                     s.advance(t - loop.time())
                 if action == "net":
-                    mode = "bad" if arg in ("blackout", "lossy", "rferr", "noping") else "ok"
+                    mode = "bad" if arg in ("blackout", "lossy", "rferr", "noping", "firstlost") else "ok"
                     s.net.blackhole = arg == "blackout"
                     s.net.phases = ([(loop.time(), 1e12, "lossy", 0.4)] if arg == "lossy" else
                                     [(loop.time(), 1e12, "noping", None)] if arg == "noping" else
+                                    [(loop.time(), 1e12, "firstlost", None)] if arg == "firstlost" else
                                     [(loop.time(), 1e12, "rferr", None)] if arg == "rferr" else [])
                     if mode != getattr(self, "_mode", "ok"):
                         self.log.append({"k": "net", "mode": mode})
